@@ -115,3 +115,13 @@ Proof.
   erewrite bindM_eq by (by apply dassert_release). erewrite bindM_eq by (by apply dassert_release).
   rewrite bool_decide_eq_true_2 by done. done.
 Qed.
+
+(* during the propagation phase (from a node, fold, bind or cutoff function) the call is refused and changes nothing;
+   in the handler phase the status is RunningOnUpdateHandlers and the call is served like one from top level *)
+Lemma set_max_height_during_propagation N s :
+  st_status s = Stabilising -> set_max_height_allowed N s = (Panic PSetMaxDuringStabilise, s).
+Proof. intros H. unfold set_max_height_allowed, bindM, gets. cbv beta iota. rewrite H. reflexivity. Qed.
+
+(* what a closure or handler calls is that very function *)
+Lemma effect_set_max_height fuel arg N : run_effect fuel arg (ESetMaxHeight N) = set_max_height_allowed N.
+Proof. reflexivity. Qed.
